@@ -171,14 +171,72 @@ def unit_get_rater(tier=None, seed=None):
         S.ensure("estimator_gets_defaults_plus_overrides",
                  len(st["built"]) == 1 and st["built"][0].attrs["kwargs"] == want, case=case)
         r = st["raters"][0] if len(st["raters"]) == 1 else {}
+        # (names / lda by value: handing the rater a copy is as good as the object itself)
         S.ensure("rater_gets_the_arguments", r.get("regressor") is (st["built"][0] if st["built"] else None)
-                 and r.get("names") is st["names"] and r.get("lda") is st["lda"], case=case)
+                 and I.truth(I.equals(r.get("names"), st["names"])) and I.truth(I.equals(r.get("lda"), st["lda"])),
+                 case=case)
         if st["in_memory"]:
             S.ensure("in_memory_training_set_used_as_given", r.get("training_set") is st["ts"] and not st["loaded"],
                      case=case)
         else:
             S.ensure("label_resolved_and_loaded_with_the_names",
-                     st["loaded"] == [(("path-of", "zef18"), st["names"])], case=case)
+                     len(st["loaded"]) == 1 and st["loaded"][0][0] == ("path-of", "zef18")
+                     and I.truth(I.equals(st["loaded"][0][1], st["names"])), case=case)
+
+    S.run(setup, post)
+    return S.finish(replay=replay_get_rater)
+
+
+def unit_get_rater_twice(tier=None, seed=None):
+    """"identical across repeated calls, fresh objects and processes ... a cached value is returned only while ...
+    training set ... unchanged": a training set given by NAME (label or folder) is files on disk; a rater built for
+    it must be trained on what the files hold when it is built.  Two get_rater calls with equal arguments, the files
+    rewritten in between (the loader contract returns different arrays): the second rater is trained on the second
+    content."""
+    S = Session("C09", "get_rater.twice", "nanite.rate.rater:get_rater")
+    st = {}
+
+    def setup(I):
+        mod = I.module("nanite.rate.rater")
+        regmod = I.module("nanite.rate.regressors")
+        reg = regmod.env.vars["reg_dict"]
+        for k, e in reg.d.items():
+            I.lib[e[1][0].name] = (lambda I, **kw: sx.Obj(sx.ClassVal("Estimator", [sx.OBJECT], {})))
+        cls = mod.env.vars["IndentationRater"]
+        raters, loaded = [], []
+        cls.ns["__init__"] = sx.Builtin("IndentationRater.__init__", lambda I, self, **kw: raters.append(kw))
+        cls.ns["get_training_set_path"] = sx.Builtin("gtsp", lambda I, label="zef18": ("path-of", label))
+        cls.ns["get_training_set_path"].is_static = True
+
+        def load_ts(I, path=None, names=None, **kw):
+            content = [sx.Opaque(f"X as on disk at load {len(loaded)}"), sx.Opaque(f"y as on disk at load {len(loaded)}")]
+            loaded.append(content)
+            return content
+        cls.ns["load_training_set"] = sx.Builtin("lts", load_ts)
+        I.contracts["nanite.rate.rater:get_available_training_sets"] = lambda I, fv, a, k: ["zef18"]
+        names = None if I.fork(z3.Bool("names_None")) else ["feat_con_apr_sum"]
+        fn = mod.env.vars["get_rater"]
+        st.update(raters=raters, loaded=loaded)
+
+        def driver(I):
+            kw = dict(regressor="Extra Trees", training_set="zef18", names=names, lda=None)
+            I.call(fn, [], dict(kw))
+            st["raters_after_first"] = len(raters)
+            # ... the training set on disk is rewritten here ...
+            I.call(fn, [], dict(kw, names=None if names is None else list(names)))
+        return sx.Builtin("two_calls", driver), [], {}
+
+    def post(S, out):
+        if out.kind != "return":
+            S.fail("returns", repr(out))
+            return
+        S.ok("returns")
+        raters, loaded = st["raters"], st["loaded"]
+        second = raters[st["raters_after_first"]:] if len(raters) > st["raters_after_first"] else []
+        ok = bool(second) and len(loaded) >= 2 and isinstance(second[-1].get("training_set"), (list, tuple)) \
+            and all(a is b for a, b in zip(second[-1]["training_set"], loaded[-1]))
+        S.ensure("second_rater_trained_on_the_training_set_as_it_is_now", ok,
+                 case={"raters_built": len(raters), "training_set_loads": len(loaded)}, witness="stale_rater")
 
     S.run(setup, post)
     return S.finish(replay=replay_get_rater)
@@ -372,6 +430,7 @@ def unit_canaries(tier=None, seed=None):
 
 def units(tier):
     us = IU.units_for("C09") + [Unit("IndentationRater.rate", unit_rate), Unit("get_rater", unit_get_rater),
+                                Unit("get_rater.twice", unit_get_rater_twice),
                                 Unit("feature_predicates", FU.unit_predicates, prop="C09"),
                                 Unit("regressors_fixed_random_state", unit_regressors),
                                 Unit("bounded.curve_states", unit_bounded_states)]
